@@ -69,7 +69,8 @@ Fixpoint combinations {A} (l : list A) (r : nat) : list (list A) :=
 Definition mat_prod (comb : list mat) : mat :=
   match comb with [] => scalar1 | m :: r => fold_left mat_mul r m end.
 
-(* matrix_rep(p, q, r, signature=sig) with p, q, r = the counts of 1, -1, 0 in sig *)
+(* matrix_rep(p, q, r, signature=sig, blades=None) with p, q, r = the counts of 1, -1, 0 in sig: the blades are the
+   combinations of the generator matrices (the branch taken for a default basis) *)
 Definition matrix_rep (sig : list Z) : list mat :=
   let Ss := sig_mats sig in
   let d := length Ss in
@@ -80,8 +81,28 @@ Definition matrix_rep (sig : list Z) : list mat :=
   let OT := mat_T O in
   map (fun Ri => mat_mul (mat_mul O Ri) OT) Rs.
 
-(* Algebra.matrix_basis *)
-Definition matrix_basis (A : alg) : list mat := matrix_rep (a_sig A).
+(* matrix_rep(..., blades=[...]) (a custom basis): every blade is the product of the generator matrices in the
+   order its name spells them:  reduce(lambda x, y: x @ y, (Es[i] for i in blade), Iden) *)
+Definition matrix_rep_blades (sig : list Z) (blades : list (list nat)) : list mat :=
+  let Ss := sig_mats sig in
+  let d := length Ss in
+  let Es := gen_mats_from 0 d Ss in
+  let Iden := kron_all (repeat I2 d) in
+  let Rs := map (fun bl => fold_left (fun acc i => mat_mul acc (nth i Es [])) bl Iden) blades in
+  let O := map (mat_col 0) Rs in
+  let OT := mat_T O in
+  map (fun Ri => mat_mul (mat_mul O Ri) OT) Rs.
+
+(* [tuple(int(c, 16) - start_index for c in name[1:]) for name in canon2bin] *)
+Definition blade_indices (A : alg) : list (list nat) :=
+  map (fun nb => map (fun g => Z.to_nat (Z.of_nat g - a_start A)) (fst nb)) (a_c2b A).
+
+(* Algebra.matrix_basis.  The Python takes the combinations branch when no basis was given and the blades branch for
+   a custom basis.  The model algebra does not record which constructor built it; the blades branch is used for every
+   algebra, and for the default basis the two branches produce the same list of matrices (Theory/Matrix.v:
+   [matrix_basis_default_branch], by computation for d <= 4; compared with the implementation on every run). *)
+Definition matrix_basis (A : alg) : list mat := matrix_rep_blades (a_sig A) (blade_indices A).
+Definition matrix_basis_default_branch (A : alg) : list mat := matrix_rep (a_sig A).
 
 (* ---- multivector.py ---- *)
 Definition mat_dim (A : alg) : nat := (2 ^ a_d A)%nat.
